@@ -59,7 +59,8 @@ class Engine:
         self.cur_st = None
         self.cur_state_for_truth = None
         self.used_defs = set()
-        self.axioms_used = {}        # name -> definitional axiom of a spec-level function symbol that was used
+        self.axioms_used = {}
+        self._set_cache = {}        # name -> definitional axiom of a spec-level function symbol that was used
 
     # ------------------------------------------------------------------ obligations
     def oblige(self, st, goal, kind, label, lineno=0, note=""):
@@ -107,8 +108,13 @@ class Engine:
             dom = consts[0].sort()
         else:
             raise OutOfSubset("multi-binder set")
+        key = ("set", body.get_id(), consts[0].get_id())
+        if key in self._set_cache:
+            return self._set_cache[key][0]
         arr = z3.Const(fresh_name("S"), z3.ArraySort(dom, z3.BoolSort()))
-        st.assume(z3.ForAll(consts, z3.Select(arr, consts[0]) == body))
+        # definitional axiom of a fresh constant: conservative, so it may be visible to every obligation
+        self.axioms_used[f"set!{len(self._set_cache)}"] = z3.ForAll(consts, z3.Select(arr, consts[0]) == body)
+        self._set_cache[key] = (arr, body)  # keep 'body' alive so the AST id stays unique
         return arr
 
     # ------------------------------------------------------------------ truthiness / equality
@@ -486,9 +492,7 @@ class Engine:
             elif isinstance(p, ast.FormattedValue):
                 if p.format_spec is not None or p.conversion != -1:
                     raise OutOfSubset("format spec")
-                v = self.ev1(p.value, st) if (self.spec or self.is_simple(p.value)) else None
-                if v is None:
-                    raise OutOfSubset("f-string with impure part")
+                v = self.ev1(p.value, st)  # must neither fork nor raise (checked by ev1)
                 parts.append(self.to_str(v))
         if not parts:
             return [(st, vstr(""))]
